@@ -22,6 +22,7 @@ func buildIntrinsics() map[string]Intrinsic {
 	addStrings(m)
 	addErrors(m)
 	addSync(m)
+	addReflect(m)
 	addTime(m)
 	addIO(m)
 	addHTTP(m)
